@@ -83,7 +83,8 @@ def require_piece(rng, name, opt):
     if opt:
         arg += rng.choice((b',{use_game_loop=true}', b', { use_game_loop = true }'))
     call = b'require(' + arg + b')'
-    form = rng.choice(('stmt', 'assign', 'local', 'field', 'callarg', 'chain', 'nestedfn', 'index'))
+    form = rng.choice(('stmt', 'assign', 'local', 'field', 'callarg', 'chain', 'nestedfn', 'index', 'in_if', 'in_else', 'in_shortif',
+                       'in_loop', 'in_cond'))
     if form == 'stmt':
         return call + b'\n', form
     if form == 'assign':
@@ -98,6 +99,17 @@ def require_piece(rng, name, opt):
         return rng.choice((call + b'.init()\n', b'v=' + call + b':get(1)\n')), form
     if form == 'index':
         return b'w=' + call + b'[1]\n', form
+    if form == 'in_if':
+        return b'if dbg then\n local z=' + call + b'\nend\n', form
+    if form == 'in_else':
+        return b'if dbg then\n z=1\nelseif dbg2 then\n z=2\nelse\n z=' + call + b'\nend\n', form
+    if form == 'in_shortif':
+        return b'if (dbg) z=' + call + b'\n', form
+    if form == 'in_loop':
+        return rng.choice((b'for i=1,2 do\n ' + call + b'\nend\n', b'while w do\n k=' + call + b'\n break\nend\n',
+                           b'repeat\n k=' + call + b'\nuntil true\n', b'do\n local k=' + call + b'\nend\n')), form
+    if form == 'in_cond':
+        return b'if ' + call + b' then\n z=3\nend\n', form
     return b'function setup_%d()\n local q=' % rng.randrange(9) + call + b'\nend\n', form
 
 
@@ -527,7 +539,8 @@ def gates(m, tier):
               'use_game_loop_true', 'use_game_loop_false', 'package_no_final_newline', 'final_return', 'package_in_subdir',
               'found_via_load_path', 'package_name_special_chars', 'lua_path:default', 'lua_path:arg_rel', 'lua_path:arg_abs', 'lua_path:env', 'nested_gameloop_function',
               'require_form:stmt', 'require_form:assign', 'require_form:local', 'require_form:field', 'require_form:callarg',
-              'require_form:chain', 'require_form:nestedfn', 'error:missing', 'error:noargs', 'error:threeargs', 'error:nonstring',
+              'require_form:chain', 'require_form:nestedfn', 'require_form:in_if', 'require_form:in_else', 'require_form:in_shortif',
+              'require_form:in_loop', 'require_form:in_cond', 'error:missing', 'error:noargs', 'error:threeargs', 'error:nonstring',
               'error:badoption'):
         if f.get(k, 0) < 2:
             missed.append('%s seen %d times' % (k, f.get(k, 0)))
